@@ -391,28 +391,28 @@ Proof. exists [97; 32; 32; 123; 35; 42; 32; 99; 32; 35; 125; 98]. split; [reflex
 Lemma filter_is_lineprefix : builtin_filters autoindent_filter_name = Some do_lineprefix.
 Proof. reflexivity. Qed.
 
-Theorem autoindent_var_lemma (E : Type) (ev : E -> str) (value : str) (rv : E) :
-  render_node ev builtin_filters (subparse_variable value rv) =
-  Some (if token_is_marker value then do_lineprefix (ev rv) (autoindent_prefix value) else ev rv).
+Theorem autoindent_var_lemma (E : Type) (ev : E -> str) (mk : option str) (rv : E) :
+  render_node ev builtin_filters (subparse_variable mk rv) =
+  Some (match mk with Some p => do_lineprefix (ev rv) p | None => ev rv end).
 Proof.
-  unfold subparse_variable. destruct (token_is_marker value); cbn [render_node]; [rewrite filter_is_lineprefix|]; reflexivity.
+  unfold subparse_variable. destruct mk; cbn [render_node]; [rewrite filter_is_lineprefix|]; reflexivity.
 Qed.
 
 Lemma render_all_plain (E : Type) (ev : E -> str) (rv : list E) : render_all ev (map NPlain rv) = Some (concat (map ev rv)).
 Proof. induction rv as [|e rv IH]; cbn [map render_all render_node concat]; [reflexivity|]. rewrite IH. reflexivity. Qed.
 
-Theorem autoindent_block_lemma (E : Type) (ev : E -> str) (value : str) (rv : list E) :
-  render_all ev (subparse_block value rv) =
-  Some (if token_is_marker value then do_lineprefix (concat (map ev rv)) (autoindent_prefix value) else concat (map ev rv)).
+Theorem autoindent_block_lemma (E : Type) (ev : E -> str) (mk : option str) (rv : list E) :
+  render_all ev (subparse_block mk rv) =
+  Some (match mk with Some p => do_lineprefix (concat (map ev rv)) p | None => concat (map ev rv) end).
 Proof.
-  unfold subparse_block. destruct (token_is_marker value).
+  unfold subparse_block. destruct mk.
   - cbn [render_all render_node]. rewrite filter_is_lineprefix. rewrite app_nil_r. reflexivity.
   - apply render_all_plain.
 Qed.
 
 Lemma autoindent_prefix_opener (w : str) (a b c : N) : autoindent_prefix (w ++ [a; b; c]) = w.
 Proof.
-  unfold autoindent_prefix. change autoindent_drop with 3%nat. rewrite app_length. cbn [length].
+  unfold autoindent_prefix. rewrite app_length. cbn [length].
   replace (length w + 3 - 3)%nat with (length w) by lia.
   rewrite firstn_app, Nat.sub_diag, firstn_all. cbn. apply app_nil_r.
 Qed.
